@@ -41,6 +41,10 @@ def cases(tier, seed, ctx=None):
                     ops.append([2, rng.choice(HNAMES)])
                 else:
                     hs = [[rng.choice(HNAMES), rng.choice(HVALS)] for _ in range(rng.range(0, 2))]
+                    if rng.chance(1, 4):
+                        # other methods and the headers of a CORS preflight: admission looks at the token header only
+                        hs = [[b":method", rng.choice([b"OPTIONS", b"OPTIONS", b"HEAD", b"POST", b"DELETE"])],
+                              [b"Origin", b"https://app.example"], [b"Access-Control-Request-Method", b"POST"]][: rng.range(1, 3)] + hs
                     ops.append([3, hs])
             ops.append([3, [[rng.choice(HNAMES), rng.choice(HVALS)]]])
             if rng.chance(4, 5) or inst == 0:
